@@ -1,6 +1,687 @@
-//! C13 — not implemented yet.
+//! C13 — Shard scans reassemble the table exactly.
+//!
+//! Code under test: `ShardedParquetTable` (through `ParquetTable::shard_by_splits`, the call the
+//! coordinator makes) and `coordinator::shard_context`.
+//!
+//! Generator: a real Parquet table (1..6 files, tiny row groups, statistics on/off/page,
+//! dictionary on/off) with a unique non-null `id`, a non-null `k`, a nullable int `a` and a
+//! nullable string `s`. Splits come either from `distributed_splits` (the engine's own
+//! enumeration) or one per row group from the harness's own footer read; every split may be
+//! re-cut by hand into sub-row-group ranges. Splits are given to 1..8 nodes arbitrarily (or by
+//! `assign_lpt`). Random projection; optional pushed filter.
+//!
+//! Oracle (reference = the generated rows, evaluated by the harness's own 3-valued predicate):
+//!  * every shard provider reports `parquet_files() == None`;
+//!  * direct `scan(proj)`: the union over nodes equals the table (multiset of projected rows);
+//!  * direct `scan_with_filter(proj, f)`: the union contains every matching row, and no row
+//!    more often than the table does (superset-then-refilter contract);
+//!  * `shard_context` + `SELECT proj FROM t [WHERE f]`: union == exactly the matching rows;
+//!    `SELECT COUNT(*), SUM(id)`: the per-shard partials add up to the table's.
 use super::Property;
+use crate::data::{batches_to_rows, canon_sort, fmt_rows, multiset_eq, pick_idx, row_cmp, ColType, Column, ParquetLayout, Rows, Table, TempDir, Value};
+use crate::engine::run_sql;
+use crate::runner::*;
+use proptest::prelude::*;
+use query_engine::distributed::coordinator::shard_context;
+use query_engine::distributed::splits::{assign_lpt, Assignment, Split, SplitSet};
+use query_engine::planner::{BinaryOp, Column as PCol, Expr, ScalarValue, UnaryOp};
+use query_engine::ExecutionContext;
+use serde::{Deserialize, Serialize};
+use std::cmp::Ordering;
+use std::path::{Path, PathBuf};
+
+// ---------------------------------------------------------------------------
+// table
+// ---------------------------------------------------------------------------
+
+fn mix(seed: u32, i: usize, col: u64) -> u64 {
+    let mut z = (seed as u64) ^ ((i as u64) << 20) ^ (col << 56) ^ 0x9E3779B97F4A7C15;
+    z = (z ^ (z >> 30)).wrapping_mul(0xBF58476D1CE4E5B9);
+    z = (z ^ (z >> 27)).wrapping_mul(0x94D049BB133111EB);
+    z ^ (z >> 31)
+}
+
+pub fn make_table(rows: usize, seed: u32) -> Table {
+    const STRS: [&str; 5] = ["", "x", "y", "xy", "long string value"];
+    let data = (0..rows)
+        .map(|i| {
+            let a = mix(seed, i, 1);
+            let s = mix(seed, i, 2);
+            vec![
+                Value::Int(i as i64),
+                Value::Int((mix(seed, i, 3) % 5) as i64),
+                if a % 4 == 0 { Value::Null } else { Value::Int(((a >> 8) % 6) as i64) },
+                if s % 5 == 0 { Value::Null } else { Value::Str(STRS[((s >> 8) % 5) as usize].to_string()) },
+            ]
+        })
+        .collect();
+    Table {
+        name: "t".into(),
+        cols: vec![
+            Column { name: "id".into(), ty: ColType::Int },
+            Column { name: "k".into(), ty: ColType::Int },
+            Column { name: "a".into(), ty: ColType::Int },
+            Column { name: "s".into(), ty: ColType::Str },
+        ],
+        rows: data,
+    }
+}
+
+pub fn read_row_groups(path: &Path) -> Vec<i64> {
+    use parquet::file::reader::{FileReader, SerializedFileReader};
+    let r = SerializedFileReader::new(std::fs::File::open(path).unwrap()).unwrap();
+    r.metadata().row_groups().iter().map(|g| g.num_rows()).collect()
+}
+
+// ---------------------------------------------------------------------------
+// predicates
+// ---------------------------------------------------------------------------
+
+#[derive(Clone, Copy, Debug, Serialize, Deserialize, PartialEq)]
+pub enum Op {
+    Lt,
+    LtEq,
+    Gt,
+    GtEq,
+    Eq,
+    NotEq,
+}
+impl Op {
+    fn sql(self) -> &'static str {
+        match self {
+            Op::Lt => "<",
+            Op::LtEq => "<=",
+            Op::Gt => ">",
+            Op::GtEq => ">=",
+            Op::Eq => "=",
+            Op::NotEq => "<>",
+        }
+    }
+    fn bin(self) -> BinaryOp {
+        match self {
+            Op::Lt => BinaryOp::Lt,
+            Op::LtEq => BinaryOp::LtEq,
+            Op::Gt => BinaryOp::Gt,
+            Op::GtEq => BinaryOp::GtEq,
+            Op::Eq => BinaryOp::Eq,
+            Op::NotEq => BinaryOp::NotEq,
+        }
+    }
+    fn holds(self, o: Ordering) -> bool {
+        match self {
+            Op::Lt => o == Ordering::Less,
+            Op::LtEq => o != Ordering::Greater,
+            Op::Gt => o == Ordering::Greater,
+            Op::GtEq => o != Ordering::Less,
+            Op::Eq => o == Ordering::Equal,
+            Op::NotEq => o != Ordering::Equal,
+        }
+    }
+}
+
+#[derive(Clone, Debug, Serialize, Deserialize, PartialEq)]
+pub enum Pred {
+    /// comparison of an int column (0 id, 1 k, 2 a) with a literal
+    Cmp(usize, Op, i64),
+    IdBetween(i64, i64),
+    IsNull(usize),
+    IsNotNull(usize),
+    SEq(String),
+    And(Box<Pred>, Box<Pred>),
+    Or(Box<Pred>, Box<Pred>),
+}
+
+const COLS: [&str; 4] = ["id", "k", "a", "s"];
+
+impl Pred {
+    pub fn sql(&self) -> String {
+        match self {
+            Pred::Cmp(c, op, v) => format!("{} {} {}", COLS[*c], op.sql(), v),
+            Pred::IdBetween(lo, hi) => format!("id BETWEEN {} AND {}", lo, hi),
+            Pred::IsNull(c) => format!("{} IS NULL", COLS[*c]),
+            Pred::IsNotNull(c) => format!("{} IS NOT NULL", COLS[*c]),
+            Pred::SEq(s) => format!("s = '{}'", s),
+            Pred::And(a, b) => format!("({} AND {})", a.sql(), b.sql()),
+            Pred::Or(a, b) => format!("({} OR {})", a.sql(), b.sql()),
+        }
+    }
+    pub fn expr(&self) -> Expr {
+        let col = |c: usize| Expr::Column(PCol::new(COLS[c]));
+        let int = |v: i64| Expr::Literal(ScalarValue::Int64(v));
+        match self {
+            Pred::Cmp(c, op, v) => Expr::BinaryExpr { left: Box::new(col(*c)), op: op.bin(), right: Box::new(int(*v)) },
+            Pred::IdBetween(lo, hi) => Expr::Between { expr: Box::new(col(0)), low: Box::new(int(*lo)), high: Box::new(int(*hi)), negated: false },
+            Pred::IsNull(c) => Expr::UnaryExpr { op: UnaryOp::IsNull, expr: Box::new(col(*c)) },
+            Pred::IsNotNull(c) => Expr::UnaryExpr { op: UnaryOp::IsNotNull, expr: Box::new(col(*c)) },
+            Pred::SEq(s) => Expr::BinaryExpr { left: Box::new(col(3)), op: BinaryOp::Eq, right: Box::new(Expr::Literal(ScalarValue::Utf8(s.clone()))) },
+            Pred::And(a, b) => Expr::BinaryExpr { left: Box::new(a.expr()), op: BinaryOp::And, right: Box::new(b.expr()) },
+            Pred::Or(a, b) => Expr::BinaryExpr { left: Box::new(a.expr()), op: BinaryOp::Or, right: Box::new(b.expr()) },
+        }
+    }
+    /// SQL three-valued evaluation: Some(true/false) or None (unknown)
+    pub fn eval(&self, row: &[Value]) -> Option<bool> {
+        match self {
+            Pred::Cmp(c, op, v) => match &row[*c] {
+                Value::Int(x) => Some(op.holds(x.cmp(v))),
+                _ => None,
+            },
+            Pred::IdBetween(lo, hi) => match &row[0] {
+                Value::Int(x) => Some(lo <= x && x <= hi),
+                _ => None,
+            },
+            Pred::IsNull(c) => Some(row[*c].is_null()),
+            Pred::IsNotNull(c) => Some(!row[*c].is_null()),
+            Pred::SEq(s) => match &row[3] {
+                Value::Str(x) => Some(x == s),
+                _ => None,
+            },
+            Pred::And(a, b) => match (a.eval(row), b.eval(row)) {
+                (Some(false), _) | (_, Some(false)) => Some(false),
+                (Some(true), Some(true)) => Some(true),
+                _ => None,
+            },
+            Pred::Or(a, b) => match (a.eval(row), b.eval(row)) {
+                (Some(true), _) | (_, Some(true)) => Some(true),
+                (Some(false), Some(false)) => Some(false),
+                _ => None,
+            },
+        }
+    }
+}
+
+fn op_strategy() -> impl Strategy<Value = Op> {
+    prop_oneof![Just(Op::Lt), Just(Op::LtEq), Just(Op::Gt), Just(Op::GtEq), Just(Op::Eq), Just(Op::NotEq)]
+}
+
+/// leaves over the non-null columns id, k
+fn leaf_nonnull() -> BoxedStrategy<Pred> {
+    prop_oneof![
+        4 => (op_strategy(), -1i64..130).prop_map(|(op, v)| Pred::Cmp(0, op, v)),
+        2 => (op_strategy(), -1i64..6).prop_map(|(op, v)| Pred::Cmp(1, op, v)),
+        2 => (-1i64..130, 0i64..40).prop_map(|(lo, d)| Pred::IdBetween(lo, lo + d)),
+    ]
+    .boxed()
+}
+fn leaf_any() -> BoxedStrategy<Pred> {
+    prop_oneof![
+        5 => leaf_nonnull(),
+        2 => (op_strategy(), -1i64..7).prop_map(|(op, v)| Pred::Cmp(2, op, v)),
+        1 => (2usize..4).prop_map(Pred::IsNull),
+        1 => (2usize..4).prop_map(Pred::IsNotNull),
+        1 => prop_oneof![Just("x"), Just(""), Just("xy"), Just("absent")].prop_map(|s| Pred::SEq(s.to_string())),
+    ]
+    .boxed()
+}
+/// AND may mix nullable leaves (unknown and false both drop the row); OR stays on non-null
+/// columns so that the engine's two-valued OR (a finding of another property) is not in play.
+fn pred_strategy() -> BoxedStrategy<Pred> {
+    prop_oneof![
+        4 => leaf_any(),
+        2 => (leaf_any(), leaf_any()).prop_map(|(a, b)| Pred::And(Box::new(a), Box::new(b))),
+        2 => (leaf_nonnull(), leaf_nonnull()).prop_map(|(a, b)| Pred::Or(Box::new(a), Box::new(b))),
+        1 => (leaf_nonnull(), leaf_nonnull(), leaf_any()).prop_map(|(a, b, c)| Pred::And(Box::new(Pred::Or(Box::new(a), Box::new(b))), Box::new(c))),
+    ]
+    .boxed()
+}
+
+// ---------------------------------------------------------------------------
+// case
+// ---------------------------------------------------------------------------
+
+#[derive(Clone, Debug, Serialize, Deserialize)]
+pub struct ShardCase {
+    pub rows: usize,
+    pub seed: u32,
+    pub layout: ParquetLayout,
+    /// Some(n): start from the engine's enumeration for n nodes; None: one split per row group
+    pub enumerate_for: Option<usize>,
+    /// per base split (cyclic): (how many extra cuts selector, position selectors)
+    pub recut: Vec<(u16, u16, u16, u16)>,
+    pub nodes: usize,
+    /// None: assign_lpt; Some(owners): owner selector per split (cyclic)
+    pub owners: Option<Vec<u16>>,
+    pub projection: Option<Vec<usize>>,
+    pub filter: Option<Pred>,
+}
+
+fn case_strategy(tier: Tier) -> BoxedStrategy<ShardCase> {
+    let max_rows = tier.pick(120usize, 400usize);
+    (
+        (
+            prop_oneof![1 => Just(0usize), 1 => 1usize..8, 8 => 8usize..=max_rows],
+            any::<u32>(),
+            proptest::collection::vec(0usize..=max_rows, 0..=5),
+            prop_oneof![Just(1usize), Just(2), Just(3), Just(5), Just(8), Just(13), Just(40), Just(1000)],
+            prop_oneof![3 => Just(1u8), 1 => Just(0u8), 2 => Just(2u8)],
+            any::<bool>(),
+        ),
+        prop_oneof![1 => (1usize..=8).prop_map(Some), 1 => Just(None)],
+        proptest::collection::vec((any::<u16>(), any::<u16>(), any::<u16>(), any::<u16>()), 1..12),
+        1usize..=8,
+        prop_oneof![1 => Just(None), 4 => proptest::collection::vec(any::<u16>(), 1..24).prop_map(Some)],
+        prop_oneof![
+            1 => Just(None),
+            3 => proptest::sample::subsequence(vec![0usize, 1, 2, 3], 1..=4).prop_map(Some),
+        ],
+        prop_oneof![1 => Just(None), 3 => pred_strategy().prop_map(Some)],
+    )
+        .prop_map(|((rows, seed, file_cuts, row_group_size, stats, dictionary), enumerate_for, recut, nodes, owners, projection, filter)| ShardCase {
+            rows,
+            seed,
+            layout: ParquetLayout { file_cuts, row_group_size, stats, dictionary },
+            enumerate_for,
+            recut,
+            nodes,
+            owners,
+            projection,
+            filter,
+        })
+        .boxed()
+}
+
+// ---------------------------------------------------------------------------
+// helpers
+// ---------------------------------------------------------------------------
+
+fn project(rows: &Rows, proj: &Option<Vec<usize>>) -> Rows {
+    match proj {
+        None => rows.clone(),
+        Some(p) => rows.iter().map(|r| p.iter().map(|&i| r[i].clone()).collect()).collect(),
+    }
+}
+
+/// counts of each distinct row in a sorted copy
+fn counts(rows: &Rows) -> Vec<(Vec<Value>, usize)> {
+    let mut s = rows.clone();
+    canon_sort(&mut s);
+    let mut out: Vec<(Vec<Value>, usize)> = vec![];
+    for r in s {
+        match out.last_mut() {
+            Some((k, n)) if row_cmp(k, &r) == Ordering::Equal => *n += 1,
+            _ => out.push((r, 1)),
+        }
+    }
+    out
+}
+fn count_of(c: &[(Vec<Value>, usize)], r: &[Value]) -> usize {
+    c.binary_search_by(|(k, _)| row_cmp(k, r)).map(|i| c[i].1).unwrap_or(0)
+}
+
+fn file_name(p: &Path) -> String {
+    p.file_name().unwrap().to_string_lossy().into_owned()
+}
+
+/// Re-cut one split into 1..=4 contiguous non-empty pieces.
+fn recut_split(s: &Split, sel: (u16, u16, u16, u16)) -> Vec<Split> {
+    let n = s.num_rows;
+    if n < 2 {
+        return vec![s.clone()];
+    }
+    let want = pick_idx(sel.0, 4); // 0..=3 extra cuts
+    let mut pts: Vec<i64> = [sel.1, sel.2, sel.3].iter().take(want).map(|p| 1 + pick_idx(*p, (n - 1) as usize) as i64).collect();
+    pts.sort_unstable();
+    pts.dedup();
+    let mut out = vec![];
+    let mut lo = 0i64;
+    for p in pts.into_iter().chain(std::iter::once(n)) {
+        out.push(Split {
+            table: s.table.clone(),
+            path: s.path.clone(),
+            file: s.file.clone(),
+            row_group: s.row_group,
+            row_offset: s.row_offset + lo,
+            num_rows: p - lo,
+            bytes: ((p - lo) * 10) as u64,
+        });
+        lo = p;
+    }
+    out
+}
+
+pub struct ShardScan;
+impl Check for ShardScan {
+    type Case = ShardCase;
+    fn name(&self) -> &'static str {
+        "shard_union"
+    }
+    fn rule(&self) -> &'static str {
+        ">=2 nodes own row ranges of one and the same row group (so sub-row-group selections from different shards must tile it)"
+    }
+    fn cases(&self, tier: Tier) -> u32 {
+        tier.pick(1500, 30_000)
+    }
+    fn strategy(&self, tier: Tier) -> BoxedStrategy<ShardCase> {
+        case_strategy(tier)
+    }
+    fn test(&self, c: &ShardCase, obs: &mut Obs) -> Verdict {
+        if c.nodes == 0 || c.nodes > 64 {
+            return Verdict::Discard("nodes outside 1..64".into());
+        }
+        if let Some(p) = &c.projection {
+            if p.is_empty() || p.iter().any(|i| *i >= 4) || p.windows(2).any(|w| w[0] >= w[1]) {
+                return Verdict::Discard("projection must be an increasing non-empty list of column indices".into());
+            }
+        }
+        let table = make_table(c.rows, c.seed);
+        let tmp = TempDir::new("c13");
+        let dir = tmp.path().join("t");
+        let files: Vec<PathBuf> = crate::data::write_parquet(&table, &dir, &c.layout);
+        let mut base = ExecutionContext::new();
+        if let Err(e) = base.register_parquet("t", &dir) {
+            return Verdict::Fail(format!("register_parquet failed: {}", e));
+        }
+        let provider = base.table_provider("t").expect("registered");
+
+        // ---- base splits
+        let mut base_splits: Vec<Split> = vec![];
+        match c.enumerate_for {
+            Some(n) => match provider.distributed_splits("t", n) {
+                Some(Ok(set)) => {
+                    obs.label("splits:engine_enumeration");
+                    base_splits = set.splits;
+                }
+                Some(Err(e)) => return Verdict::Fail(format!("distributed_splits failed: {}", e)),
+                None => return Verdict::Fail("ParquetTable returned no distributed_splits".into()),
+            },
+            None => {
+                obs.label("splits:one_per_row_group");
+                let mut fs = files.clone();
+                fs.sort();
+                for f in &fs {
+                    for (rg, n) in read_row_groups(f).into_iter().enumerate() {
+                        if n > 0 {
+                            base_splits.push(Split {
+                                table: "t".into(),
+                                path: f.clone(),
+                                file: file_name(f),
+                                row_group: rg,
+                                row_offset: 0,
+                                num_rows: n,
+                                bytes: (n * 10) as u64,
+                            });
+                        }
+                    }
+                }
+            }
+        }
+        let mut splits: Vec<Split> = vec![];
+        for (i, s) in base_splits.iter().enumerate() {
+            splits.extend(recut_split(s, c.recut[i % c.recut.len().max(1)]));
+        }
+        if splits.len() > base_splits.len() {
+            obs.label("hand_recut");
+        }
+        let set = SplitSet {
+            table: "t".into(),
+            total_bytes: splits.iter().map(|s| s.bytes).sum(),
+            total_rows: splits.iter().map(|s| s.num_rows).sum(),
+            target_split_bytes: 1,
+            splits,
+        };
+
+        // ---- assignment
+        let assignment: Assignment = match &c.owners {
+            None => {
+                obs.label("assign:lpt");
+                assign_lpt(&set, c.nodes)
+            }
+            Some(sel) => {
+                obs.label("assign:arbitrary");
+                let mut per_node = vec![Vec::new(); c.nodes];
+                for i in 0..set.splits.len() {
+                    per_node[pick_idx(sel[i % sel.len()], c.nodes)].push(i);
+                }
+                Assignment {
+                    nodes: c.nodes,
+                    node_bytes: per_node.iter().map(|v: &Vec<usize>| v.iter().map(|&i| set.splits[i].bytes).sum()).collect(),
+                    node_rows: per_node.iter().map(|v| v.iter().map(|&i| set.splits[i].num_rows).sum()).collect(),
+                    node_splits: per_node.iter().map(|v| v.len()).collect(),
+                    per_node,
+                    total_bytes: set.total_bytes,
+                }
+            }
+        };
+        // non-triviality: some row group is shared by >=2 nodes
+        let mut shared = false;
+        {
+            let mut owner_of_rg: std::collections::BTreeMap<(&Path, usize), usize> = Default::default();
+            for (node, owned) in assignment.per_node.iter().enumerate() {
+                for &i in owned {
+                    let s = &set.splits[i];
+                    match owner_of_rg.get(&(s.path.as_path(), s.row_group)) {
+                        Some(o) if *o != node => shared = true,
+                        None => {
+                            owner_of_rg.insert((s.path.as_path(), s.row_group), node);
+                        }
+                        _ => {}
+                    }
+                }
+            }
+        }
+        obs.nontrivial(shared);
+        if assignment.per_node.iter().any(|v| v.is_empty()) {
+            obs.label("has_empty_shard");
+        }
+        obs.label(format!("files:{}", files.len()));
+        obs.label(if c.filter.is_some() { "filter:yes" } else { "filter:no" });
+        obs.label(if c.projection.is_some() { "projection:yes" } else { "projection:no" });
+        obs.sample(serde_json::json!({
+            "rows": c.rows, "files": files.len(), "row_group_size": c.layout.row_group_size, "splits": set.splits.len(),
+            "nodes": c.nodes, "projection": c.projection, "filter": c.filter.as_ref().map(|f| f.sql()),
+        }));
+
+        // ---- reference
+        let all_proj = project(&table.rows, &c.projection);
+        let matching: Rows = match &c.filter {
+            None => table.rows.clone(),
+            Some(f) => table.rows.iter().filter(|r| f.eval(r) == Some(true)).cloned().collect(),
+        };
+        let matching_proj = project(&matching, &c.projection);
+        if c.filter.is_some() {
+            obs.label(if matching.is_empty() {
+                "filter_selects:none"
+            } else if matching.len() == table.rows.len() {
+                "filter_selects:all"
+            } else {
+                "filter_selects:some"
+            });
+        }
+        let ctx_desc = || {
+            format!(
+                "rows={} files={} rg_size={} nodes={} per_node={:?} splits={:?}",
+                c.rows,
+                files.len(),
+                c.layout.row_group_size,
+                c.nodes,
+                assignment.per_node,
+                set.splits.iter().map(|s| format!("{}[{}]@{}+{}", s.file, s.row_group, s.row_offset, s.num_rows)).collect::<Vec<_>>()
+            )
+        };
+
+        // ---- direct scans of every shard provider
+        let proj_slice: Option<&[usize]> = c.projection.as_deref();
+        let fexpr = c.filter.as_ref().map(|f| f.expr());
+        let mut union_plain: Rows = vec![];
+        let mut union_filtered: Rows = vec![];
+        let mut shards = vec![];
+        for node in 0..c.nodes {
+            let owned: Vec<Split> = assignment.per_node[node].iter().map(|&i| set.splits[i].clone()).collect();
+            let shard = match provider.shard_by_splits(&owned) {
+                Some(Ok(p)) => p,
+                Some(Err(e)) => return Verdict::Fail(format!("shard_by_splits failed: {} ({})", e, ctx_desc())),
+                None => return Verdict::Fail("ParquetTable cannot shard by splits".into()),
+            };
+            if let Some(f) = shard.parquet_files() {
+                return Verdict::Fail(format!(
+                    "shard of node {} exposes whole files through parquet_files(): {:?} — whole-file fast paths would read every row on every node",
+                    node, f
+                ));
+            }
+            match shard.scan(proj_slice) {
+                Ok(b) => union_plain.extend(batches_to_rows(&b)),
+                Err(e) => return Verdict::Fail(format!("shard scan of node {} failed: {} ({})", node, e, ctx_desc())),
+            }
+            if let Some(fe) = &fexpr {
+                match shard.scan_with_filter(proj_slice, Some(fe)) {
+                    Ok(b) => union_filtered.extend(batches_to_rows(&b)),
+                    Err(e) => {
+                        // same filter on the whole table: if that fails too the filter is outside the engine's domain
+                        return match provider.scan_with_filter(proj_slice, Some(fe)) {
+                            Err(_) => Verdict::Discard("engine rejects this pushed filter on the unsharded table too".into()),
+                            Ok(_) => Verdict::Fail(format!(
+                                "filtered shard scan of node {} failed but the same scan of the whole table works: {} (filter {}; {})",
+                                node,
+                                e,
+                                c.filter.as_ref().unwrap().sql(),
+                                ctx_desc()
+                            )),
+                        };
+                    }
+                }
+            }
+            shards.push(shard);
+        }
+        if !multiset_eq(&union_plain, &all_proj, 0.0) {
+            let (mut got, mut want) = (union_plain.clone(), all_proj.clone());
+            canon_sort(&mut got);
+            canon_sort(&mut want);
+            return Verdict::Fail(format!(
+                "union of shard scans != table: {} rows returned, table has {}.\n got: {}\nwant: {}\n{}",
+                got.len(),
+                want.len(),
+                fmt_rows(&got, 40),
+                fmt_rows(&want, 40),
+                ctx_desc()
+            ));
+        }
+        if let Some(f) = &c.filter {
+            let got = counts(&union_filtered);
+            let have = counts(&all_proj);
+            let need = counts(&matching_proj);
+            for (r, n) in &got {
+                let h = count_of(&have, r);
+                if *n > h {
+                    return Verdict::Fail(format!(
+                        "filtered shard scans return row {:?} {} times, the table holds it {} times (filter {}; {})",
+                        r,
+                        n,
+                        h,
+                        f.sql(),
+                        ctx_desc()
+                    ));
+                }
+            }
+            for (r, n) in &need {
+                let g = count_of(&got, r);
+                if g < *n {
+                    return Verdict::Fail(format!(
+                        "filtered shard scans lose rows: {:?} satisfies {} {} times but is returned {} times ({})",
+                        r,
+                        f.sql(),
+                        n,
+                        g,
+                        ctx_desc()
+                    ));
+                }
+            }
+        }
+
+        // ---- through shard_context + SQL
+        let cols_sql = match &c.projection {
+            None => "*".to_string(),
+            Some(p) => p.iter().map(|&i| COLS[i]).collect::<Vec<_>>().join(", "),
+        };
+        let where_sql = c.filter.as_ref().map(|f| format!(" WHERE {}", f.sql())).unwrap_or_default();
+        let q_rows = format!("SELECT {} FROM t{}", cols_sql, where_sql);
+        let q_agg = format!("SELECT COUNT(*), SUM(id) FROM t{}", where_sql);
+        let mut union_sql: Rows = vec![];
+        let (mut cnt, mut sum) = (0i64, 0i64);
+        for node in 0..c.nodes {
+            let (ctx, stats) = match shard_context(&base, "t", &set, &assignment, node) {
+                Ok(x) => x,
+                Err(e) => return Verdict::Fail(format!("shard_context({}) failed: {} ({})", node, e, ctx_desc())),
+            };
+            let want_rows: i64 = assignment.per_node[node].iter().map(|&i| set.splits[i].num_rows).sum();
+            if stats.rows != want_rows || stats.splits != assignment.per_node[node].len() {
+                return Verdict::Fail(format!(
+                    "shard_context({}) reports {} rows / {} splits, the assignment gives it {} rows / {} splits",
+                    node,
+                    stats.rows,
+                    stats.splits,
+                    want_rows,
+                    assignment.per_node[node].len()
+                ));
+            }
+            for (q, is_agg) in [(&q_rows, false), (&q_agg, true)] {
+                match run_sql(&ctx, q) {
+                    Ok(rows) => {
+                        if is_agg {
+                            if rows.len() != 1 || rows[0].len() != 2 {
+                                return Verdict::Fail(format!("`{}` on shard {} returned {}", q, node, fmt_rows(&rows, 5)));
+                            }
+                            match (&rows[0][0], &rows[0][1]) {
+                                (Value::Int(n), Value::Int(s)) => {
+                                    cnt += n;
+                                    sum += s;
+                                }
+                                (Value::Int(n), Value::Null) => cnt += n,
+                                other => return Verdict::Fail(format!("`{}` on shard {} returned {:?}", q, node, other)),
+                            }
+                        } else {
+                            union_sql.extend(rows);
+                        }
+                    }
+                    Err(e) => {
+                        return match run_sql(&base, q) {
+                            Err(_) => Verdict::Discard("engine rejects this query on the unsharded table too".into()),
+                            Ok(_) => Verdict::Fail(format!("`{}` fails on shard {} but works on the whole table: {} ({})", q, node, e, ctx_desc())),
+                        };
+                    }
+                }
+            }
+        }
+        if !multiset_eq(&union_sql, &matching_proj, 0.0) {
+            let (mut got, mut want) = (union_sql.clone(), matching_proj.clone());
+            canon_sort(&mut got);
+            canon_sort(&mut want);
+            return Verdict::Fail(format!(
+                "union over shard contexts of `{}` != reference: {} rows vs {}.\n got: {}\nwant: {}\n{}",
+                q_rows,
+                got.len(),
+                want.len(),
+                fmt_rows(&got, 40),
+                fmt_rows(&want, 40),
+                ctx_desc()
+            ));
+        }
+        let want_cnt = matching.len() as i64;
+        let want_sum: i64 = matching.iter().map(|r| if let Value::Int(x) = r[0] { x } else { 0 }).sum();
+        if cnt != want_cnt || sum != want_sum {
+            return Verdict::Fail(format!(
+                "`{}`: per-shard partials add up to COUNT={} SUM(id)={}, the table gives COUNT={} SUM(id)={} ({})",
+                q_agg,
+                cnt,
+                sum,
+                want_cnt,
+                want_sum,
+                ctx_desc()
+            ));
+        }
+        drop(shards);
+        Verdict::Pass
+    }
+}
 
 pub fn property() -> Property {
-    Property { id: "C13", level: "exploration", assumptions: &[], checks: vec![] }
+    Property {
+        id: "C13",
+        level: "exploration",
+        assumptions: &[
+            "splits tile the table (engine enumeration or one per row group, re-cut into non-empty contiguous ranges); the assignment gives every split to exactly one node",
+            "pushed filters: comparisons/BETWEEN/IS [NOT] NULL/string equality, AND over any leaves, OR only over non-null columns (the engine's two-valued OR over NULLs belongs to another property)",
+            "projections are increasing column-index lists, as the planner produces them",
+            "a query the engine also rejects on the unsharded table is discarded, any other error in a shard is a failure",
+        ],
+        checks: vec![Box::new(ShardScan)],
+    }
 }
